@@ -531,3 +531,40 @@ func H_C15_label_mixed_scripts() {
 	vAssert(err != nil && err.Error() == "input \"\", "+want, "C15 label of a message that mixes scripts (clause)")
 	vReach("end")
 }
+
+// a message that contains a comma is written inside single quotes (the documented way to keep the
+// comma from splitting the rule list): the clause shows it verbatim, quotes included, for an empty value
+// and for a missing key / parameter alike, wherever required stands in the rule list
+func H_C15_required_quoted_msg() {
+	a, b := vC15Msg("a", 2), vC15Msg("b", 2)
+	msg := "'" + a + "," + b + "'"
+	rule := []string{"required|" + msg, "required|" + msg + ",to=1~3", "to=1~3,required|" + msg, "to=1~3|'x,y',required|" + msg + ",ge=1"}[vndChoice("list", 4)]
+	want := vC14Label(msg)
+	switch vndChoice("carrier", 8) {
+	case 0:
+		err := Var("", rule)
+		vAssert(err != nil && err.Error() == "input \"\", "+want, "C15 required, quoted message with a comma / Var")
+	case 1:
+		err := Struct(&vC15R{}, NewRule().Set("F", rule))
+		vAssert(err != nil && err.Error() == "\"vC15R.F\" input \"\", "+want, "C15 required, quoted message with a comma / Struct")
+	case 2:
+		err := Map(map[string]string{"k": ""}, NewRule().Set("k", rule))
+		vAssert(err != nil && err.Error() == "\"map[k]\" input \"\", "+want, "C15 required, quoted message with a comma / Map, empty entry")
+	case 3:
+		err := Map(map[string]string{"other": "x"}, NewRule().Set("k", rule))
+		vAssert(err != nil && err.Error() == "\"map[k]\" input \"\", "+want, "C15 required, quoted message with a comma / Map, missing key")
+	case 4:
+		err := Url("h?k=", NewRule().Set("k", rule))
+		vAssert(err != nil && err.Error() == "\"k\" input \"\", "+want, "C15 required, quoted message with a comma / Url, empty parameter")
+	case 5:
+		err := Url("h?other=x", NewRule().Set("k", rule))
+		vAssert(err != nil && err.Error() == "\"k\" input \"\", "+want, "C15 required, quoted message with a comma / Url, missing parameter")
+	case 6:
+		err := Map(map[string]interface{}{"other": 1}, NewRule().Set("k", rule))
+		vAssert(err != nil && err.Error() == "\"map[k]\" input \"\", "+want, "C15 required, quoted message with a comma / Map of interface values, missing key")
+	case 7:
+		err := Url("h", NewRule().Set("k", rule))
+		vAssert(err != nil && err.Error() == "\"k\" input \"\", "+want, "C15 required, quoted message with a comma / Url without a query")
+	}
+	vReach("end")
+}
